@@ -207,7 +207,10 @@ class Headings(Space):
     prop = "C10"
     name = "headings"
     FORMS = ["# {}", "## {}", "### {} ###", "{}\n===", "{}\n---"]
-    HCTX = [((), None, None), (("ul",), None, None), (("bq",), None, None), ((), "p", "p")]
+    HCTX = [((), None, None), (("ul",), None, None), (("bq",), None, None), ((), "p", "p"),
+            # appended later: every other container a heading can sit in, and two-layer nestings
+            (("fn",), None, None), (("ol",), None, None), (("alert",), None, None), (("ul", "bq"), None, None), (("bq", "ul"), None, None),
+            (("fn", "ul"), None, None), (("fnlong",), None, None)]
 
     def __init__(self, tier):
         self.maxn = 2 if tier == "quick" else 3
@@ -264,7 +267,7 @@ class Headings(Space):
             viol.append(("cleanups:line-count", {"input": text, "off": off, "on": on}))
         else:
             for x, y in zip(lo, ln):
-                if x != y and not re.match(r"^[ >]*(- )?#{1,6} ", x):
+                if x != y and not re.match(r"^(?:[ >]|[-*+] |\d+[.)] |\[\^[^\]]*\]: )*#{1,6} ", x):
                     viol.append(("cleanups:non-heading-line-changed", {"input": text, "off": off, "on": on, "line": x}))
                     break
         return Outcome(viol=viol, tags=tags, obs=hash(on))
